@@ -13,6 +13,7 @@ Hunter (property stated against the public API / real processes, Python oracle i
   (a) open == load == loads, save == dump == dumps, save->open keeps every string value
   (b) `mappyfile format` == save(open(..)) byte for byte for every option
   (c) `mappyfile validate`: one line per message, status 0 iff all files parsed and validated, status == problems when < 256
+      (problems = validation messages + files that failed to parse)
   (d) `mappyfile schema` == json.dumps(get_versioned_schema(V), sort_keys=True, indent=4)
 """
 import os, sys, io, re, json, codecs, glob, shutil, subprocess, tempfile, itertools, logging, warnings
@@ -28,15 +29,17 @@ MANIFEST = dict(
           "so save->open returns the printed characters when they contain no CR (refuted with a CR witness: known finding); open/load/loads are one function of the decoded "
           "text and save/dump/dumps one function producing the characters (stated over an abstract parser and printer: the front ends add only decode-after-read and "
           "encode-before-write); `format` is save(open(IN, expand, comments, position=True), OUT, decoded options); `validate` echoes exactly one line per message plus one "
-          "status line per file and the summary, its exit status is (number of messages) mod 256: status = 0 <-> all files parsed and validated is REFUTED twice "
-          "(unparseable file not counted; 256 messages) and proved under the guard no-parse-failure and < 256 messages; `schema` writes the UTF-8 of the sorted JSON dump. "
+          "status line per file and the summary, its errors counter is the number of problems (messages + files that failed to parse) and its exit status is "
+          "min(problems, 255), hence status = 0 <-> all files parsed and validated and status = problems when < 256, for every file list (full strength, code as of "
+          "/repo e0b6215); `schema` writes the UTF-8 of the sorted JSON dump. "
           "The model is tied to utils.py/cli.py/parser.py on every run by the extracted model vs real str.encode/bytes.decode, real temp files, the real body of "
           "cli.validate under CliRunner, and real /venv/bin/mappyfile subprocesses (stdout and OS exit status). Partial: click's argument parsing, the OS exit-status channel "
           "and the codecs module internals are not modelled (covered only by the subprocess/file runs); the parser and printer are abstract in the Coq statements."),
     design_ref="DESIGN.md 7/C20",
     note=("C20: partial - click argument parsing, the OS exit-status channel and codecs internals are exercised by real subprocess/file runs only. unicode_escape decoding of "
           "--spacer/--quote/--newlinechar is modelled for ASCII and the six escapes of the help text only (a non-ASCII spacer is mangled by the real code: outside the stated domain). "
-          "Three genuine defects are open known findings (parse failure not counted, exit status mod 256, CR translated on read)."))
+          "One genuine defect is an open known finding (CR translated on read); two were fixed by /repo e0b6215 (parse failure not counted, exit status mod 256) "
+          "and are reported again if they come back."))
 
 COMPONENTS = ["cli"]
 TARGETS = []
@@ -729,9 +732,10 @@ def judge_validate(d, patterns, version, expand, rc, so):
                       % (len(want), len(got), want[:1])))
     ok_all = problems == 0
     if (rc == 0) != ok_all or (problems < 256 and rc != problems):
-        # one fingerprint per root cause: the observed status n_msg mod 256 is what "parse failures are not
-        # counted" (applies when a file failed to parse) and "status wraps modulo 256" (applies from 256 messages)
-        # produce, separately or together; any other status is a different defect
+        # one fingerprint per root cause (both were genuine defects, fixed by /repo e0b6215, and are reported
+        # again should they come back): the status n_msg mod 256 is what "parse failures are not counted"
+        # (applies when a file failed to parse) and "status wraps modulo 256" (applies from 256 messages)
+        # produce, separately or together; any other wrong status is a different defect
         if rc == n_msg % 256 and (n_pf > 0 or n_msg >= 256):
             fps = ([FP_PARSE] if n_pf > 0 else []) + ([FP_MOD] if n_msg >= 256 else [])
         else:
@@ -766,7 +770,7 @@ def read_validate_out(toks):
     rd = codec.Reader(toks)
     n = rd.z()
     lines = [rd.str() for _ in range(n)]
-    return lines, rd.z(), rd.z(), rd.z()       # lines, validation_count, errors, status
+    return lines, rd.z(), rd.z(), rd.z(), rd.z()       # lines, validation_count, errors, sys.exit argument, status
 
 
 def hunt_validate(ctx, rng, tmp):
@@ -775,8 +779,8 @@ def hunt_validate(ctx, rng, tmp):
     d = write_validate_files(tmp, specs)
     N = file_name
     cases = [
-        ([N(("unparseable",))], None, True),                    # recorded input of the known finding (parse failure)
-        ([N(("invalid", 256))], None, True),                    # recorded input of the known finding (mod 256)
+        ([N(("unparseable",))], None, True),                    # recorded input of the fixed finding (parse failure not counted)
+        ([N(("invalid", 256))], None, True),                    # recorded input of the fixed finding (status wrapped mod 256)
         ([N(("ok", 1))], None, True),
         ([N(("invalid", 1))], None, True),
         ([N(("invalid", 2))], 7.6, True),
@@ -828,7 +832,7 @@ def hunt_validate(ctx, rng, tmp):
         outs = run_model("cli", [(5, enc_validate_case(p, f)) for p, f, _, _ in model_cases])
         bad = 0; first = None
         for (p, f, rc, so), o in zip(model_cases, outs):
-            lines, vc, errs, status = read_validate_out(o)
+            lines, vc, errs, exit_arg, status = read_validate_out(o)
             if "\n".join(lines) + "\n" != so or status != rc:
                 bad += 1
                 first = first or {"patterns": p, "model_status": status, "real_status": rc, "model_lines": lines[:3], "real_stdout": so[:300]}
@@ -897,11 +901,12 @@ def corr_validate_logic(ctx, rng):
     bad = 0; first = None
     for (m, f), o in zip(cases, outs):
         code, out, exc = impl_validate_logic(m, f)
-        lines, vc, errs, status = read_validate_out(o)
+        lines, vc, errs, exit_arg, status = read_validate_out(o)
         ctx.note_case("logic" + repr((m, [(fn, None if x is None else len(x)) for fn, x in f])), nontrivial=any(x is None or x for _, x in f))
-        if exc is not None or "\n".join(lines) + "\n" != out or code != errs or status != errs % 256:
+        # under CliRunner the exit code is the argument given to sys.exit (no OS truncation)
+        if exc is not None or "\n".join(lines) + "\n" != out or code != exit_arg or status != exit_arg % 256:
             bad += 1
-            first = first or {"mapfiles": m, "files": [(fn, None if x is None else len(x)) for fn, x in f], "model": (lines[:3], errs, status),
+            first = first or {"mapfiles": m, "files": [(fn, None if x is None else len(x)) for fn, x in f], "model": (lines[:3], errs, exit_arg, status),
                               "impl": (out[:200], code, repr(exc))}
     ctx.obligation("correspondence O-cli/validate-logic (validate_cmd lines and errors counter = real body of cli.validate under CliRunner with stubbed open/validate)",
                    bad == 0, "%d outcome lists, %d disagreements%s" % (len(cases), bad, "; first: %r" % (first,) if first else ""))
@@ -910,10 +915,10 @@ def corr_validate_logic(ctx, rng):
     ctx.count("validate_logic_cases", len(cases))
     ctx.count("traces_validated_against_impl", len(cases))
     # the OS side of sys.exit(n): status = n mod 256
-    ns = [0, 1, 2, 255, 256, 257, 300, 511, 512, 513, 768, 1000]
+    ns = [0, 1, 2, 254, 255, 256, 257, 300, 511, 512, 513, 768, 1000, 65535, 65536]
     real = pmap(lambda n: subprocess.run([PY, "-c", "import sys; sys.exit(%d)" % n]).returncode, ns)
-    mo = run_model("cli", [(5, enc_validate_case(["x"], [("x", [{"line": 1, "column": 1, "message": "m", "error": "e"}] * n)])) for n in ns])
-    st = [read_validate_out(o)[3] for o in mo]
+    mo = run_model("cli", [(8, [n]) for n in ns])
+    st = [o[0] for o in mo]
     ctx.obligation("correspondence O-cli/exit-status (exit_status n = OS status of a real process calling sys.exit(n))", st == real, "n=%r model=%r real=%r" % (ns, st, real))
     if st != real:
         ctx.violation("correspondence:O-cli/exit-status", "model exit status %r, real %r for sys.exit(%r)" % (st, real, ns), {"kind": "exit"}, no_input=True)
